@@ -26,7 +26,9 @@ def check_program(ctx, prog, stats, samples):
             ctx.violation(f"call outcome: implementation {r['impl']} != model {r['model']}", case, kind="correspondence")
             # the tie is broken for this call: ask the rule directly whether the implementation's outcome is also wrong
             # (no attribution to KF-01 here: that needs the model's agreement)
-            if r["impl"] != r["spec_py"] and not (r["spec_py"] == ["ambig"] and r["impl"][0] == "run" and not r["chain"]):
+            # (KF-01's class is the set of inputs on which the MODEL of the unchanged code leaves the rule; an input on which
+            # the model follows the rule and the implementation does not is a new failure whatever its shape)
+            if r["impl"] != r["spec_py"] and (r["model"] == r["spec_py"] or not (r["spec_py"] == ["ambig"] and r["impl"][0] == "run" and not r["chain"])):
                 ctx.violation(f"implementation {r['impl']} deviates from the documented rule {r['spec_py']}", case)
             continue
         if "resolve" in r and r["resolve"] != r["impl"]:
